@@ -164,7 +164,16 @@ func genFuzzPlan(tp *simrt.Tape, seed uint64, tier string) any {
 			if tp.Chance(1, 3) {
 				pw = "wrong"
 			}
-			p.Ops = append(p.Ops, confOp{Kind: "join", C: c, Group: []string{"g1", "g2", "nogroup", "g1/x", ""}[tp.Draw(5)], User: u.Name, Pass: pw})
+			op := confOp{Kind: "join", C: c, Group: []string{"g1", "g2", "nogroup", "g1/x", ""}[tp.Draw(5)], User: u.Name, Pass: pw}
+			if tp.Chance(1, 3) {
+				// token logins: with / without / with an empty username
+				op.V = []string{"ft-plain", "ft-emptyuser", "ft-user", "ft-expired", "ft-sub", "nosuchtoken", "a.b.c"}[tp.Draw(7)]
+				op.Flag = tp.Chance(1, 2)
+				if tp.Chance(1, 3) {
+					op.User = ""
+				}
+			}
+			p.Ops = append(p.Ops, op)
 		case 3:
 			p.Ops = append(p.Ops, confOp{Kind: "leave", C: c, Group: []string{"", "g1", "g2"}[tp.Draw(3)]})
 		case 4: // offer with a parseable SDP: reaches newUpConn when 'present' is held
@@ -254,6 +263,12 @@ func runFuzz(c *Ctx, plan any) {
 	p := plan.(*confPlan)
 	w := newConfWorld(c)
 	x := &confExec{w: w, p: p}
+	w.vfs.Put("/sim/data/var/tokens.jsonl", []byte(`{"token":"ft-plain","group":"g1","permissions":["present","message"],"expires":"2030-01-01T00:00:00Z"}
+{"token":"ft-emptyuser","group":"g1","username":"","permissions":["present"],"expires":"2030-01-01T00:00:00Z"}
+{"token":"ft-user","group":"g1","username":"tokuser","permissions":["present","op"],"expires":"2030-01-01T00:00:00Z"}
+{"token":"ft-expired","group":"g1","permissions":["present"],"expires":"1999-01-01T00:00:00Z"}
+{"token":"ft-sub","group":"","includeSubgroups":true,"permissions":["present"],"expires":"2030-01-01T00:00:00Z"}
+`))
 	kicked := map[int]bool{}
 	for _, op := range p.Ops {
 		if op.Kind == "useraction" && op.Sub == "kick" {
